@@ -20,10 +20,32 @@ PID = 'C14'
 LEAN_TARGETS = ['CfVerif.Props.C14']
 PROPS_MODULES = ['CfVerif.Props.C14']
 DRIVER = 'Driver/C14.lean'
-REQUIRED_THEOREMS = []
-TRUSTED = []
-ASSUMPTIONS = []
-RULE = ''
+REQUIRED_THEOREMS = ['CfVerif.C14.' + t for t in (
+    'i2c_roundtrip_v0', 'i2c_roundtrip_v1', 'i2c_image_total', 'i2c_update_is_layout', 'i2c_valid_iff_checksum',
+    'i2c_single_corruption_detected_partial', 'i2c_version_corruption_iff', 'i2c_single_corruption_detected_counterexample',
+    'ow_roundtrip', 'ow_roundtrip_lookup', 'ow_update_is_layout', 'ow_valid_iff_crc', 'ow_completes_iff', 'ow_roundtrip_live_counterexample',
+    'ow_valid_iff_crc_live_counterexample',
+    'lh_geo_container_roundtrip', 'lh_calib_container_roundtrip', 'lh_geo_roundtrip', 'lh_calib_roundtrip', 'lh_config_roundtrip',
+    'deck_info_parse', 'deck_flags', 'deck_info_version_rejected',
+    'loco_parse', 'loco2_id_list', 'loco2_active_id_list', 'loco2_anchor_data', 'poly4d_layout', 'ledtiming_image', 'ledtiming_layout',
+    'lh_file_roundtrip', 'lh_file_roundtrip_mem', 'param_file_roundtrip', 'lh_file_rejects', 'param_file_rejects')]
+TRUSTED = ['harness/corr/c14.py extractor + correspondence (fake mem_handler: a byte array; requests served in order after the caller returned)',
+           'binascii.crc32 = the bitwise CRC-32 of Model/C14 (reflected 0xEDB88320, init/xorout 0xFFFFFFFF): cross-checked on random inputs every run',
+           'struct double->float32 rounding is not modelled: floats are carried as float32 bit patterns; signalling NaNs are quieted by CPython and compared modulo the quiet bit',
+           'PyYAML: safe_load(dump(v)) = v with every dict sorted by key, for plain values (None/bool/int/float/str/list/dict with all-str or all-int keys); NaN sign/payload not preserved; cross-checked every run',
+           "native struct formats 'B'/'BB' = single bytes",
+           'device-side layouts (Spec/C14: EEPROM block, 1-wire memory, deck info records, anchor pages, struct poly4d, LED timing records) written from firmware knowledge',
+           "bytes.decode() of deck names = strict UTF-8 decoder of Model/C14 (cross-checked incl. malformed sequences)"]
+ASSUMPTIONS = ['a read returns exactly the requested bytes (the real Memory class completes a read only with the full length); device read failures are outside the model',
+               'element dict keys of OWElement are modelled as ids through the element_mapping bijection; non-Latin-1 strings raise as in Python',
+               'content types outside the model: numpy arrays / non-plain objects in YAML files, missing dict keys in I2CElement.elements, non-integer EEPROM fields, negative LED timing fields, CompressedStart/CompressedSegment trajectories',
+               'dict keys that are equal across types in Python (True == 1 == 1.0) are not identified by the model',
+               'Props/C14 1-wire theorems are about the parser repaired by fixes/D12-c14.patch; on the unrepaired tree the Gen obligations fail and the D12 witness is replayed']
+RULE = ('cases = per image kind: write side (boundary + random field values incl. every struct range limit and float32 extremes), parse side (written images inside '
+        'larger memories, every single-byte corruption of sampled EEPROM images, CRC/length/id corruptions and CRC-correct malformed TLVs for 1-wire, every 1-wire section '
+        'length x first id, all 2^7 x 2^2 deck bit-field combinations, UTF-8/invalid deck names, truncated memories), lighthouse pages for random subsets of base stations, '
+        'anchor lists, trajectory/LED images, YAML: PyYAML round trip of random plain values, file round trips, malformed documents of every envelope/shape class; '
+        'non-trivial = distinct (operation, input) pairs')
 
 
 # ======================================================================================================
@@ -655,7 +677,9 @@ def extract(ctx):
 # ======================================================================================================
 def _quiet():
     import logging
+    import warnings
     logging.disable(logging.CRITICAL)
+    warnings.filterwarnings('ignore')
 
 
 class FakeMemHandler:
@@ -1373,7 +1397,292 @@ def gen_loco(ctx, cases):
         cases.append(('led', line, (lambda ts=ts: real_led(ts)), None, {'op': 'led', 'colour': c}, ('led', line)))
 
 
-GENERATORS = [gen_i2c, gen_ow, gen_lh, gen_deck, gen_loco]
+# ---- YAML files ---------------------------------------------------------------------------------------------
+def y_enc(v):
+    """plain Python value -> wire form (floats as binary64 bit patterns, strings as UTF-8 hex)"""
+    if v is None:
+        return 'n'
+    if v is True:
+        return 't'
+    if v is False:
+        return 'f'
+    if isinstance(v, int):
+        return 'i%d;' % v
+    if isinstance(v, float):
+        return 'd%d;' % struct.unpack('<Q', struct.pack('<d', v))[0]
+    if isinstance(v, str):
+        return 's%s;' % v.encode('utf-8').hex()
+    if isinstance(v, (list, tuple)):
+        return 'L%d;' % len(v) + ''.join(y_enc(x) for x in v)
+    if isinstance(v, dict):
+        return 'D%d;' % len(v) + ''.join(y_enc(k) + y_enc(x) for k, x in v.items())
+    raise TypeError('not a plain value: %r' % (v,))
+
+
+def file_exc(e):
+    if type(e) is Exception:
+        return 'err msg:' + str(e).replace(' ', '_')
+    return 'err ' + exc_enum(e)
+
+
+def _tmpfile(ctx_dir, name):
+    return os.path.join(ctx_dir, name)
+
+
+_TMP = []
+
+
+def tmpdir():
+    if not _TMP:
+        _TMP.append(tempfile.mkdtemp(prefix='c14-'))
+    return _TMP[0]
+
+
+def real_yaml_canon(v):
+    import yaml
+    try:
+        return 'ok ' + y_enc(yaml.safe_load(yaml.dump(v)))
+    except Exception as e:
+        return 'err ' + exc_enum(e)
+
+
+def show_lh_file(res):
+    geos, calibs, st = res
+    g = [[{k: None}, o.origin, o.rotation_matrix, o.valid] for k, o in geos.items()]
+    sw = lambda s: [s.phase, s.tilt, s.curve, s.gibmag, s.gibphase, s.ogeemag, s.ogeephase]
+    c = [[{k: None}, sw(o.sweeps[0]), sw(o.sweeps[1]), o.uid, o.valid] for k, o in calibs.items()]
+    return y_enc([g, c, st])
+
+
+def mk_fgeo(o, r, v):
+    from cflib.crazyflie.mem.lighthouse_memory import LighthouseBsGeometry
+    g = LighthouseBsGeometry()
+    g.origin, g.rotation_matrix, g.valid = o, r, v
+    return g
+
+
+def mk_fcalib(a, b, uid, v):
+    from cflib.crazyflie.mem.lighthouse_memory import LighthouseBsCalibration
+    c = LighthouseBsCalibration()
+    for sw, vals in ((c.sweeps[0], a), (c.sweeps[1], b)):
+        sw.phase, sw.tilt, sw.curve, sw.gibmag, sw.gibphase, sw.ogeemag, sw.ogeephase = vals
+    c.uid, c.valid = uid, v
+    return c
+
+
+def real_lh_file_rt(geos, calibs, st):
+    _quiet()
+    from cflib.localization.lighthouse_config_manager import LighthouseConfigFileManager as FM
+    fn = os.path.join(tmpdir(), 'lh.yaml')
+    try:
+        with contextlib.redirect_stdout(io.StringIO()):
+            FM.write(fn, {i: mk_fgeo(o, r, v) for i, o, r, v in geos}, {i: mk_fcalib(a, b, u, v) for i, a, b, u, v in calibs}, st)
+            return 'ok ' + show_lh_file(FM.read(fn))
+    except Exception as e:
+        return file_exc(e)
+
+
+def real_lh_file_read(doc):
+    _quiet()
+    import yaml
+    from cflib.localization.lighthouse_config_manager import LighthouseConfigFileManager as FM
+    fn = os.path.join(tmpdir(), 'lh-in.yaml')
+    with open(fn, 'w') as f:
+        yaml.dump(doc, f)
+    try:
+        with contextlib.redirect_stdout(io.StringIO()):
+            return 'ok ' + show_lh_file(FM.read(fn))
+    except Exception as e:
+        return file_exc(e)
+
+
+def show_params(res):
+    return y_enc([[{k: None}, p.is_stored, p.default_value, p.stored_value] for k, p in res.items()])
+
+
+def real_pf_rt(params):
+    _quiet()
+    from cflib.crazyflie.param import PersistentParamState
+    from cflib.localization.param_io import ParamFileManager as PM
+    fn = os.path.join(tmpdir(), 'params.yaml')
+    try:
+        with contextlib.redirect_stdout(io.StringIO()):
+            PM.write(fn, {n: PersistentParamState(a, b, c) for n, a, b, c in params})
+            return 'ok ' + show_params(PM.read(fn))
+    except Exception as e:
+        return file_exc(e)
+
+
+def real_pf_read(doc):
+    _quiet()
+    import yaml
+    from cflib.localization.param_io import ParamFileManager as PM
+    fn = os.path.join(tmpdir(), 'params-in.yaml')
+    with open(fn, 'w') as f:
+        yaml.dump(doc, f)
+    try:
+        with contextlib.redirect_stdout(io.StringIO()):
+            return 'ok ' + show_params(PM.read(fn))
+    except Exception as e:
+        return file_exc(e)
+
+
+def canon_y_nan(s):
+    """YAML has one `.nan`: sign and payload of a NaN do not survive dump/load (PyYAML builds -inf/inf); compare NaNs as equal"""
+    import re
+
+    def fix(m):
+        b = int(m.group(1))
+        if (b & 0x7FF0000000000000) == 0x7FF0000000000000 and (b & 0x000FFFFFFFFFFFFF):
+            b = 0x7FF8000000000000
+        return 'd%d;' % b
+    return re.sub(r'd(\d+);', fix, s)
+
+
+Y_FLOATS = [0.0, -0.0, 1.0, -1.5, 0.1, 1e17, 1e-7, 3.4028234663852886e+38, float('inf'), float('-inf'), float('nan'), 2.5e-320, 123456.789]
+
+
+def rnd_float(rng):
+    return rng.choice(Y_FLOATS) if rng.random() < 0.5 else bits_f32(qnan32(rng.getrandbits(32))) if rng.random() < 0.7 else rng.uniform(-10, 10)
+
+
+def rnd_plain(rng, depth=0):
+    k = rng.random()
+    if depth > 2 or k < 0.45:
+        return rng.choice([None, True, False, 0, 1, -7, 1 << 40, 'a', '', 'type', '1', 'é€', 'with space', 'yes', '0x10', '1e3', 'null', '~',
+                           rng.choice(Y_FLOATS)])
+    if k < 0.7:
+        return [rnd_plain(rng, depth + 1) for _ in range(rng.randrange(0, 4))]
+    if rng.random() < 0.5:
+        keys = rng.sample(['b', 'a', 'type', 'version', 'Z', 'geos', '10', '9', 'é'], rng.randrange(0, 5))
+    else:
+        keys = rng.sample([3, 1, 2, 10, -1, 0, 15], rng.randrange(0, 5))
+    return {kk: rnd_plain(rng, depth + 1) for kk in keys}
+
+
+def rnd_vec(rng, n=3):
+    return [rnd_float(rng) for _ in range(n)]
+
+
+def gen_yaml(ctx, cases):
+    rng = ctx.rng
+    thorough = ctx.tier == 'thorough'
+    # the trusted assumption itself: safe_load(dump(v)) = v with dict keys sorted
+    for _ in range(600 if thorough else 150):
+        v = rnd_plain(rng)
+        cases.append(('yaml_canon', 'yaml_canon ' + y_enc(v), (lambda v=v: real_yaml_canon(v)), canon_y_nan, {'op': 'yaml_canon', 'value': repr(v)[:80]}, ('yaml_canon', y_enc(v))))
+    for _ in range(300 if thorough else 70):
+        gb = rng.sample(range(16), rng.choice([0, 1, 2, 4, 16]))
+        cb = rng.sample(range(16), rng.choice([0, 1, 2, 4, 16]))
+        geos = [(i, rnd_vec(rng), [rnd_vec(rng) for _ in range(3)], rng.random() < 0.8) for i in gb]
+        calibs = [(i, rnd_vec(rng, 7), rnd_vec(rng, 7), rng.choice([0, 1, 0xFFFFFFFF, rng.getrandbits(32)]), rng.random() < 0.8) for i in cb]
+        st = rng.choice([1, 2, 2, 3, None])
+        line = 'lh_file_rt %s %s %s' % (y_enc([[i, o, r, v] for i, o, r, v in geos]), y_enc([[i, a, b, u, v] for i, a, b, u, v in calibs]), y_enc(st))
+        cases.append(('lh_file_rt', line, (lambda g=geos, c=calibs, s=st: real_lh_file_rt(g, c, s)), canon_y_nan,
+                      {'op': 'lh_file_rt', 'geo_bs': gb, 'calib_bs': cb, 'system_type': st}, ('lh_file_rt', line[:300])))
+
+    def lh_doc():
+        sweep = lambda: dict(zip(['phase', 'tilt', 'curve', 'gibmag', 'gibphase', 'ogeemag', 'ogeephase'], rnd_vec(rng, 7)))
+        geo = lambda: {'origin': rnd_vec(rng), 'rotation': [rnd_vec(rng) for _ in range(3)]}
+        cal = lambda: {'sweeps': [sweep(), sweep()], 'uid': rng.getrandbits(32)}
+        d = {'type': 'lighthouse_system_configuration', 'version': '1', 'systemType': 2,
+             'geos': {i: geo() for i in rng.sample(range(16), rng.randrange(0, 3))}, 'calibs': {i: cal() for i in rng.sample(range(16), rng.randrange(0, 3))}}
+        m = rng.random()
+        if m < 0.5:
+            mut = rng.choice(['notype', 'badtype', 'typeint', 'noversion', 'intversion', 'badversion', 'nost', 'nogeos', 'nocalibs', 'geoslist', 'geosnone',
+                              'geonokey', 'geonone', 'geolist', 'sweepsdict', 'sweepsshort', 'sweepsstr', 'sweepnokey', 'nouid', 'calibint', 'extra'])
+            if mut == 'notype':
+                del d['type']
+            elif mut == 'badtype':
+                d['type'] = rng.choice(['persistent_param_state', 'Lighthouse_system_configuration', ''])
+            elif mut == 'typeint':
+                d['type'] = rng.choice([1, None, ['lighthouse_system_configuration'], True])
+            elif mut == 'noversion':
+                del d['version']
+            elif mut == 'intversion':
+                d['version'] = rng.choice([1, 1.0, True])
+            elif mut == 'badversion':
+                d['version'] = rng.choice(['2', '1.0', ' 1', ''])
+            elif mut == 'nost':
+                del d['systemType']
+            elif mut == 'nogeos':
+                del d['geos']
+            elif mut == 'nocalibs':
+                del d['calibs']
+            elif mut == 'geoslist':
+                d['geos'] = [geo()]
+            elif mut == 'geosnone':
+                d['geos'] = rng.choice([None, 3, 'x'])
+            elif mut == 'geonokey':
+                d['geos'] = {0: {'origin': [1.0]}, 1: geo()}
+            elif mut == 'geonone':
+                d['geos'] = {0: rng.choice([None, 5, 'origin'])}
+            elif mut == 'geolist':
+                d['geos'] = {0: [1, 2]}
+            elif mut == 'sweepsdict':
+                d['calibs'] = {0: {'sweeps': {0: sweep(), 1: sweep()}, 'uid': 1}}
+            elif mut == 'sweepsshort':
+                d['calibs'] = {0: {'sweeps': [sweep()][:rng.randrange(2)], 'uid': 1}}
+            elif mut == 'sweepsstr':
+                d['calibs'] = {0: {'sweeps': rng.choice(['ab', '', None, 7]), 'uid': 1}}
+            elif mut == 'sweepnokey':
+                s1 = sweep()
+                del s1[rng.choice(list(s1))]
+                d['calibs'] = {0: {'sweeps': [sweep(), s1], 'uid': 1}}
+            elif mut == 'nouid':
+                d['calibs'] = {0: {'sweeps': [sweep(), sweep()]}}
+            elif mut == 'calibint':
+                d['calibs'] = {0: rng.choice([1, None, [], 'sweeps'])}
+            else:
+                d['more'] = [1, 2]
+        elif m < 0.6:
+            d = rng.choice([None, 7, 1.5, True, 'a type of file', 'nothing', ['type', 'version'], ['x'], [], {}])
+        return d
+    for _ in range(500 if thorough else 140):
+        d = lh_doc()
+        cases.append(('lh_file_read', 'lh_file_read ' + y_enc(d), (lambda d=d: real_lh_file_read(d)), canon_y_nan,
+                      {'op': 'lh_file_read', 'doc': repr(d)[:100]}, ('lh_file_read', y_enc(d))))
+    names = ['ring.effect', 'stabilizer.controller', 'sound.freq', 'a.b', 'z', 'activeMarker.mode']
+    for _ in range(300 if thorough else 70):
+        params = [(n, rng.random() < 0.5, rng.choice([0, 1, 255, -3, rnd_float(rng)]), rng.choice([None, 0, 7, rnd_float(rng)])) for n in rng.sample(names, rng.randrange(0, 6))]
+        line = 'pf_rt ' + y_enc([[n, a, b, c] for n, a, b, c in params])
+        cases.append(('pf_rt', line, (lambda p=params: real_pf_rt(p)), canon_y_nan, {'op': 'pf_rt', 'params': [p[0] for p in params]}, ('pf_rt', line[:300])))
+
+    def pf_doc():
+        ent = lambda: {'is_stored': rng.random() < 0.5, 'default_value': rng.choice([0, 1.5]), 'stored_value': rng.choice([None, 3])}
+        d = {'type': 'persistent_param_state', 'version': '1', 'params': {n: ent() for n in rng.sample(names, rng.randrange(0, 4))}}
+        m = rng.random()
+        if m < 0.5:
+            mut = rng.choice(['notype', 'badtype', 'noversion', 'intversion', 'noparams', 'paramslist', 'entnokey', 'entnone', 'paramsnone'])
+            if mut == 'notype':
+                del d['type']
+            elif mut == 'badtype':
+                d['type'] = rng.choice(['lighthouse_system_configuration', 3, None])
+            elif mut == 'noversion':
+                del d['version']
+            elif mut == 'intversion':
+                d['version'] = rng.choice([1, '2'])
+            elif mut == 'noparams':
+                del d['params']
+            elif mut == 'paramslist':
+                d['params'] = [ent()]
+            elif mut == 'entnokey':
+                e = ent()
+                del e[rng.choice(list(e))]
+                d['params'] = {'a.b': e}
+            elif mut == 'entnone':
+                d['params'] = {'a.b': rng.choice([None, 1, 'is_stored', []])}
+            else:
+                d['params'] = rng.choice([None, 0])
+        elif m < 0.6:
+            d = rng.choice([None, 7, 'mytype', ['type'], [], {}])
+        return d
+    for _ in range(300 if thorough else 80):
+        d = pf_doc()
+        cases.append(('pf_read', 'pf_read ' + y_enc(d), (lambda d=d: real_pf_read(d)), canon_y_nan, {'op': 'pf_read', 'doc': repr(d)[:100]}, ('pf_read', y_enc(d))))
+
+
+GENERATORS = [gen_i2c, gen_ow, gen_lh, gen_deck, gen_loco, gen_yaml]
 
 
 def correspond(ctx):
@@ -1497,3 +1806,95 @@ def search(ctx):
         if got.startswith('ok ') and (' V=1' in got) != (hdr_ok and sec_ok):
             ctx.witness('ow-valid-vs-crc', '1-wire validity verdict differs from the recomputed CRCs',
                         {'memory': bytes(im).hex(), 'corrupted_index': i, 'header_crc_ok': hdr_ok, 'section_crc_ok': sec_ok}, got=got)
+
+    # lighthouse memory: any subset of base stations, geometry then calibration, read back through LighthouseMemory
+    for t in range(max(10, n // 10)):
+        gb = rng.sample(range(16), rng.choice([1, 2, 5, 16]))
+        cb = rng.sample(range(16), rng.choice([1, 2, 5, 16]))
+        geos = [(bs, [rnd_f32(rng) for _ in range(12)], rng.randrange(2)) for bs in gb]
+        calibs = [(bs, [rnd_f32(rng) for _ in range(14)], rng.getrandbits(32), rng.randrange(2)) for bs in cb]
+        got = real_lh_cfg(0x2000, geos, calibs)
+        ok = got.startswith('ok ')
+        if ok:
+            parts = canon_f32_fields(got[3:]).split(';')
+            for bs, f, v in geos:
+                ok = ok and parts[bs] == canon_f32_fields('geo %s/%d' % ('.'.join(map(str, f)), v))
+            for bs, f, uid, v in calibs:
+                ok = ok and parts[16 + bs] == canon_f32_fields('calib %s/%d/%d' % ('.'.join(map(str, f)), uid, v))
+        if not ok:
+            ctx.witness('lh-memory-roundtrip', 'lighthouse geometry/calibration written to memory does not read back',
+                        {'geos': geos, 'calibs': calibs}, got=got[:400])
+    # deck info section: what the device encodes is what is listed (all bit-field combinations over the run)
+    for t in range(max(20, n // 5)):
+        recs, want = [], []
+        for i in range(8):
+            bf1, bf2 = rng.randrange(128), rng.randrange(4)
+            h_, l_, b_ = rng.getrandbits(32), rng.getrandbits(32), rng.getrandbits(32)
+            name = bytes(rng.choice(b'abcdefghijklmnopqrstuvwxyzABCDEF0123456789') for _ in range(rng.choice([0, 1, 6, 17, 18])))
+            recs.append(bytes([bf1, bf2]) + struct.pack('<LLL', h_, l_, b_) + name.ljust(18, b'\x00'))
+            if bf1 & 1:
+                flags = ''.join('1' if x else '0' for x in [bf1 & 1, bf1 & 2, bf1 & 4, bf1 & 8, bf1 & 16, bf1 & 32, bf1 & 64, bf2 & 1, bf2 & 2])
+                want.append('%d:%d:%d:%d:%d:%d:%d:%s:%s' % (i, bf1, bf2, h_, l_, b_, 0x1000 + 0x20 * i, '.'.join(str(c) for c in name), flags))
+        got = real_deck_info(bytes([3]) + b''.join(recs))
+        if got != 'ok decks ' + (';'.join(want) or '-'):
+            ctx.witness('deck-info', 'deck info section does not parse to the fields the device encoded', {'records': [r.hex() for r in recs]}, got=got[:400])
+    # anchors
+    for t in range(max(5, n // 30)):
+        k = rng.choice([0, 1, 3, 8, 16])
+        an = [anchor_bytes(rng) for _ in range(k)]
+        mem = bytearray(0x1000 + 0x100 * max(k, 1))
+        mem[0] = k
+        for i, a in enumerate(an):
+            mem[0x1000 + 0x100 * i:0x1000 + 0x100 * i + 13] = a
+        want = 'ok n=%d a=%s V=1' % (k, ';'.join('%d.%d.%d.%d' % (struct.unpack('<III', a[:12]) + (1 if a[12] else 0,)) for a in an) or '-')
+        got = real_loco(bytes(mem))
+        if canon_f32_fields(got) != canon_f32_fields(want):
+            ctx.witness('loco-anchors', 'anchor list does not parse to what the device encoded', {'anchors': [a.hex() for a in an]}, got=got[:300])
+    # write-only layouts
+    for t in range(max(10, n // 10)):
+        pieces = [tuple([rnd_f32(rng) for _ in range(8)] for _ in range(4)) + (rnd_f32(rng),) for _ in range(rng.choice([1, 2, 4]))]
+        want = b''.join(b''.join(struct.pack('<I', v) for c in p[:4] for v in c) + struct.pack('<I', p[4]) for p in pieces)
+        got = real_traj(pieces)
+        if got != 'ok ' + hexs(want):
+            ctx.witness('poly4d-layout', 'trajectory image differs from struct poly4d {float p[4][8]; float duration;}', {'pieces': pieces}, got=got[:200])
+        ts = [(rng.randrange(256), rng.randrange(256), rng.randrange(256), rng.randrange(256), rng.randrange(16), rng.randrange(2), rng.randrange(8))
+              for _ in range(rng.choice([1, 3, 8]))]
+        want = b''
+        for (tm, r, g, b, leds, fade, rot) in ts:
+            w = (((r * 249 + 1014) >> 11) << 11) | (((g * 253 + 505) >> 10) << 5) | ((b * 249 + 1014) >> 11)
+            rec = bytes([tm, w >> 8, w & 0xFF, leds | (fade << 4) | (rot << 5)])
+            if rec != bytes(4):
+                want += rec
+        got = real_led(ts)
+        if got != 'ok ' + hexs(want + bytes(4)):
+            ctx.witness('led-layout', 'LED timing image differs from the firmware record layout', {'timings': ts}, got=got[:200])
+    # YAML files: round trip of valid objects, rejection of other types / versions
+    for t in range(max(20, n // 5)):
+        gb = rng.sample(range(16), rng.choice([0, 1, 3, 16]))
+        cb = rng.sample(range(16), rng.choice([0, 1, 3, 16]))
+        geos = [(i, rnd_vec(rng), [rnd_vec(rng) for _ in range(3)], rng.random() < 0.8) for i in gb]
+        calibs = [(i, rnd_vec(rng, 7), rnd_vec(rng, 7), rng.getrandbits(32), rng.random() < 0.8) for i in cb]
+        st = rng.choice([1, 2])
+        got = real_lh_file_rt(geos, calibs, st)
+        wg = [[{i: None}, o, r, True] for i, o, r, v in sorted(geos) if v]
+        wc = [[{i: None}, a, b, u, True] for i, a, b, u, v in sorted(calibs) if v]
+        if canon_y_nan(got) != canon_y_nan('ok ' + y_enc([wg, wc, st])):
+            ctx.witness('lh-file-roundtrip', 'lighthouse configuration file does not read back to the written valid objects',
+                        {'geos': repr(geos)[:300], 'calibs': repr(calibs)[:300], 'system_type': st}, got=got[:300])
+        names = ['ring.effect', 'stabilizer.controller', 'sound.freq', 'a.b', 'z']
+        params = [(nm, rng.random() < 0.5, rng.choice([0, 1, 255, rnd_float(rng)]), rng.choice([None, 7, rnd_float(rng)])) for nm in rng.sample(names, rng.randrange(0, 5))]
+        got = real_pf_rt(params)
+        if canon_y_nan(got) != canon_y_nan('ok ' + y_enc([[{nm: None}, a, b, c] for nm, a, b, c in sorted(params)])):
+            ctx.witness('param-file-roundtrip', 'persistent parameter file does not read back to the written states', {'params': repr(params)[:300]}, got=got[:300])
+    for doc, want in (({'type': 'persistent_param_state', 'version': '1'}, 'err msg:Unsupported_file_type'),
+                      ({'type': 'lighthouse_system_configuration', 'version': '2'}, 'err msg:Unsupported_file_version'),
+                      ({'version': '1'}, 'err msg:Type_field_missing'), ({'type': 'lighthouse_system_configuration'}, 'err msg:Version_field_missing')):
+        got = real_lh_file_read(doc)
+        if got != want:
+            ctx.witness('lh-file-rejection', 'lighthouse configuration reader accepts a file of another type/version', {'doc': doc}, got=got, want=want)
+    for doc, want in (({'type': 'lighthouse_system_configuration', 'version': '1'}, 'err msg:Unsupported_file_type'),
+                      ({'type': 'persistent_param_state', 'version': 1}, 'err msg:Unsupported_file_version'),
+                      ({'params': {}}, 'err msg:Type_field_missing'), ({'type': 'persistent_param_state'}, 'err msg:Version_field_missing')):
+        got = real_pf_read(doc)
+        if got != want:
+            ctx.witness('param-file-rejection', 'parameter file reader accepts a file of another type/version', {'doc': doc}, got=got, want=want)
